@@ -65,7 +65,7 @@ add('C04', "(1) spec/PegMachine.tla is the implementation-shaped small-step mach
 add('C06', "PegSem carries the action family as a behaviour constant (identity, tagging, FailedSemantics on a predicate, raise); TLC evaluates it for "
     "every (grammar, text); model and generated parser are run with 16 concrete semantics objects (10 exception types, _default only, declared "
     "parameters) and compared: value flow, alternatives after FailedSemantics, exception type/object reaching the caller, identity == no semantics, "
-    "@nomemo call counts == invocations (memoization-off count), memoized counts <= that; the tagging semantics is also supplied in objects that are falsy, unhashable, or equal to an object used before (through model.parse, generated parsers and tatsu.parse): the object's own truth value, hash and equality must play no part. Code->spec: executions with the stateless members of the "
+    "@nomemo call counts == invocations (memoization-off count), memoized counts <= that; the tagging semantics is also supplied in objects that are falsy, unhashable, or equal to an object used before (through model.parse, generated parsers and tatsu.parse): the object's own truth value, hash and equality must play no part. spec/PegMachineObs.tla adds history counters per (position, rule) to the machine and TLC checks, under every memo schedule and with memoization on and off, ActionOncePerBody, NoMemoEvaluates, HitNeedsEvaluation (a self-test invariant must be refuted on the same job file). Code->spec: executions with the stateless members of the "
     "family are recorded and validated by TLC against PegTrace: a non-memoizable (@nomemo) rule must show a body evaluation after every entry, a "
     "memoized rule may replay only what an earlier evaluation at that (position, rule) produced, FailedSemantics included.",
     "Trusted: TLC, projections. Action call counts are compared with the memoization-off run of the same parser, not with a spec count.",
@@ -79,7 +79,7 @@ add('C09', "(A) PegSem's lexical level (Skip fixpoint over whitespace, eol comme
     "TLA+ specs PegSem (lexical level) and ConfigLayers checked/evaluated by TLC + replay", "5 C09, 3.7")
 add('C11', "PegSem places the keyword check of @name rules after the body and before the action, as an ordinary failure; TLC evaluates 8 grammar "
     "shapes x 1-3 keywords x @name on/off x ignorecase {off, directive, parse setting} x all texts over {i,f,x,space} up to the bound plus case variants, "
-    "a 13-keyword table and quoted keywords; replayed into model and generated parser with and without a tagging action.",
+    "a 13-keyword table and quoted keywords; replayed into model and generated parser with and without a tagging action. spec/PegMachineObs.tla: TLC checks the action property KeywordBeforeAction on the implementation-shaped machine (the step that rejects a keyword calls no action and leaves a failure in the memo table) under every memo schedule.",
     "Trusted: TLC, projections.", "TLA+ spec PegSem (IsKeyword before Act) evaluated by TLC, exhaustive family universe, replay", "5 C11")
 
 add('C12', "(a) spec/LinePos.tla: TLC enumerates every text over {letter, space, LF, CR} up to the bound, checks the laws of the line table and prints "
